@@ -7,19 +7,19 @@ CONSTANTS
   TagLen = 2
   MinInitLen = 2
   MsgSize = 2
-  Classes = {"custom"}
-  Mode = "pm"
+  Classes = {"start_batch", "commitment_signed", "ping", "channel_ready"}
+  Mode = "raw1"
   RotAt = 1000
   StartN = 996
   PauseAt = 2
-  MaxMsgs1 = 1
+  MaxMsgs1 = 3
   MaxMsgs2 = 0
   MaxOps = 30
   MaxTampers = 0
   MaxBudgetOps = 0
   MaxDisc = 0
-  CutReads = TRUE
-  CutHandshake = TRUE
+  CutReads = FALSE
+  CutHandshake = FALSE
   EmitEvery = 1
 CONSTRAINT Bound
 VIEW View
